@@ -209,7 +209,7 @@ func manualSnippets() []string {
 }
 
 func checkC05(c *Ctx) {
-	c.rule = "inputs = every prefix of every corpus/manual program, random single/multi mutations (delete, duplicate, splice, replace from a hostile alphabet), all strings up to a length bound over critical alphabets; each goes through syntax.Parser.Parse under a logical tick budget and, on error, through exec.DisplayError; plus input-variable texts through exec.ExecVarInputText. distinct_nontrivial = distinct (outcome kind, error code, first 3 tree node kinds / error line) classes among inputs that are not the empty string"
+	c.rule = "inputs = every prefix of every corpus/manual program, random single/multi mutations (delete, duplicate, splice, replace from a hostile alphabet), all strings up to a length bound over critical alphabets, runs of 200 … 100000 (thorough: 3 million) opening brackets / operators / nested block headers; each goes through syntax.Parser.Parse under a logical tick budget and, on error, through exec.DisplayError; plus input-variable texts through exec.ExecVarInputText. distinct_nontrivial = distinct (outcome kind, error code, first 3 tree node kinds / error line) classes among inputs that are not the empty string"
 	c.assumptions = []string{"tick hooks H5 count parser progress; a budget of 64*(len+16)+2000 ticks is >10x what any accepted corpus program needs", "physical lines are split on CR, LF, CRLF, LFCR"}
 	rng := c.Rand("c05")
 	seeds := append([]string{}, corpus...)
@@ -319,6 +319,29 @@ func checkC05(c *Ctx) {
 		enum(c05Crit20, 4)
 	}
 	c.Count("exhaustive_short_inputs", int64(len(inputs)-before))
+
+	// 3b. deep nesting: long runs of opening brackets / nested blocks (the recursive-descent
+	// parser must refuse them with an error, not die of a Go stack overflow)
+	deep := []int{200, 5000, 100000}
+	if !c.Quick() {
+		deep = append(deep, 1000000, 3000000)
+	}
+	for _, n := range deep {
+		for _, unit := range []string{"{", "【", "（显示：", "{1 + ", "【1，", "甲之", "甲#", "以甲（乙）、", "1 + ", "- ", "{【", "“", "「“", "/* "} {
+			add([]rune(strings.Repeat(unit, n)))
+			add([]rune("输出 " + strings.Repeat(unit, n) + "1"))
+		}
+		var sb strings.Builder
+		lim := n
+		if lim > 1500 {
+			lim = 1500 // (one TAB more per line: quadratic text size)
+		}
+		for i := 0; i < lim; i++ {
+			sb.WriteString(strings.Repeat("\t", i) + "如果 真：\n")
+		}
+		add([]rune(sb.String()))
+	}
+	c.Count("deep_nesting_inputs", int64(len(deep)*29))
 
 	reqs := make([]Req, len(inputs))
 	for i, in := range inputs {
